@@ -102,6 +102,23 @@ func c10Gen(rng *rand.Rand, i int) c10Case {
 		}
 		pat = sb.String()
 	}
+	// a third of the cases: the shapes the candidate finders and the tree rewrites recognise, with inputs
+	// sampled from the pattern (matches, near misses, inputs ending right after a piece of a match)
+	directed := ""
+	haveDirected := false
+	if rng.Intn(3) == 0 {
+		_, o := randRegexOptions(rng, true)
+		cfg := fullConfig(rng, o)
+		var ast *gen.Node
+		if rng.Intn(3) != 0 {
+			ast = biasedAst(rng, cfg)
+		} else {
+			ast = rewriteAst(rng, cfg)
+		}
+		pat = ast.Print(o)
+		ins := gen.Inputs(rng, ast, 4, 12)
+		directed, haveDirected = string(ins[1+rng.Intn(len(ins)-1)]), true
+	}
 	if hugeRepeat.MatchString(pat) && rng.Intn(10) != 0 {
 		pat = hugeRepeat.ReplaceAllString(pat, "{2")
 	}
@@ -120,6 +137,12 @@ func c10Gen(rng *rand.Rand, i int) c10Case {
 	}
 	if len(in) > 120 {
 		in = in[:120]
+	}
+	if haveDirected {
+		in = directed
+		if rng.Intn(2) == 0 {
+			opts &^= int32(regexp2.RightToLeft | regexp2.ECMAScript | regexp2.RE2)
+		}
 	}
 	var rs strings.Builder
 	for k := rng.Intn(5); k > 0; k-- {
@@ -396,7 +419,7 @@ func init() {
 		core.RunLeg(c, core.Leg[c10Case]{
 			Name: "X", Kind: "exploration(no panic, no hang)",
 			Rule: "patterns: arbitrary byte strings — literals harvested from the repository's tests and corpora (all of them, compiling or not), structure-aware mutations of them (insert metacharacter sequences, delete/replace bytes incl. invalid UTF-8, duplicate slices, truncate, wrap), printed random full-syntax ASTs and their mutations, random concatenations of metacharacter sequences; random subsets of the 9 regex option bits, code-gen analysis / bitmap off / capture order / stack limits; inputs and replacement strings arbitrary bytes ($-forms, NUL, invalid UTF-8, astral); start offsets in [-2,len+2], counts in {-2,-1,0,1,2,5}. Every exported function (Compile/MustCompile, Match*, Find*, FindNextMatch chain + all Match/Group/Capture accessors, FindAll*Index, Replace, ReplaceFunc, Split, group maps, Escape/Unescape, all 21 adapter methods) runs under recover() and a 20 s watchdog with MatchTimeout 150 ms; allowed outcomes: normal return, parse error, timeout, stack limit, documented argument error; MustCompile panics exactly with the parse error; the adapter panics only with a match-time error. non-trivial = non-empty pattern",
-			N: c.N(5000, 300000), Gen: c10Gen, Check: c10Check, Batch: 500,
+			N: c.N(12000, 300000), Gen: c10Gen, Check: c10Check, Batch: 500,
 		})
 	})
 }
